@@ -329,3 +329,110 @@ func VerifC07_LockedBatchAndReset() {
 	W.checkAll("unlocked")
 	vreach("end")
 }
+
+// ---- C07-H2: interleavings of opening, advancing, exhausting and closing several queries
+// (typed, unsafe, cached; nested and overlapping) with attempted structural operations.
+// Model: the set of open queries. The world is locked iff that set is non-empty, a structural
+// operation panics iff locked, closing a finished or closed query again changes nothing.
+const vQN = 3
+
+type vQSlot struct {
+	kind int // 0 typed Filter1, 1 unsafe, 2 cached Filter1
+	open bool
+	used bool
+	q1   Query1[vPos]
+	qu   UnsafeQuery
+}
+
+func vQueryInterleavings(steps int) {
+	W := vShapeFor(0)
+	f := NewFilter1[vPos](W.w)
+	fc := NewFilter1[vPos](W.w).Register()
+	uf := NewUnsafeFilter(W.w, W.id[cA])
+	var qs [vQN]vQSlot
+	nOpen := func() int {
+		n := 0
+		for i := range qs {
+			if qs[i].open {
+				n++
+			}
+		}
+		return n
+	}
+	for s := 0; s < steps; s++ {
+		i := vPick("slot", vQN)
+		sl := &qs[i]
+		switch vPick("action", 4) {
+		case 0: // open (only on a slot never used, so that handles stay distinct)
+			if sl.used {
+				continue
+			}
+			sl.kind = i // slot 0: typed, 1: unsafe, 2: cached
+			switch sl.kind {
+			case 0:
+				sl.q1 = f.Query()
+			case 1:
+				sl.qu = uf.Query()
+			case 2:
+				sl.q1 = fc.Query()
+			}
+			sl.open, sl.used = true, true
+		case 1: // advance one step; exhaustion closes
+			if !sl.open {
+				continue
+			}
+			var more bool
+			if sl.kind == 1 {
+				more = sl.qu.Next()
+			} else {
+				more = sl.q1.Next()
+			}
+			if !more {
+				sl.open = false
+			}
+		case 2: // close (also a finished / closed / never iterated one)
+			if !sl.used {
+				continue
+			}
+			vcheck("close-no-panic", !vpanics(func() {
+				if sl.kind == 1 {
+					sl.qu.Close()
+				} else {
+					sl.q1.Close()
+				}
+			}))
+			sl.open = false
+		case 3: // attempted structural operation
+			locked := nOpen() > 0
+			var h Entity
+			p := vpanics(func() { h = W.w.NewEntity() })
+			vcheck("structural-op-panics-iff-locked", p == locked)
+			if !p {
+				W.e[W.n] = vEnt{h: h, alive: true}
+				W.n++
+			}
+		}
+		vcheck("locked-iff-some-query-open", W.w.IsLocked() == (nOpen() > 0))
+		vcheck("stats-locked-agrees", W.w.Stats().Locked == (nOpen() > 0))
+	}
+	// exhaust / close everything: unlocked, lock bits all returned
+	for i := range qs {
+		if qs[i].open {
+			if qs[i].kind == 1 {
+				qs[i].qu.Close()
+			} else {
+				qs[i].q1.Close()
+			}
+			qs[i].open = false
+		}
+	}
+	vcheck("unlocked-when-all-closed", !W.w.IsLocked())
+	lk := &W.w.storage.locks
+	vcheck("all-lock-bits-returned", lk.locks.bits == 0 && lk.bitPool.available == lk.bitPool.length)
+	vLocked = false
+	W.checkAll("end")
+	vreach("end")
+}
+
+func VerifC07_QueryInterleavings3()  { vQueryInterleavings(3) }
+func VerifC07T_QueryInterleavings5() { vQueryInterleavings(5) }
